@@ -12,7 +12,14 @@
 (*   got[p]     [path, err, tenants]: what the REAL decoder returned after *)
 (*              the REAL encoder, per encode/transport path ("build",      *)
 (*              "packed", "rpc", "rpc-single"); err # "" when encoding or  *)
-(*              decoding failed or panicked                                *)
+(*              decoding failed or panicked; ref = "decoded" (compare with  *)
+(*              want) or "proto-writer" (compare with want2)               *)
+(*   want2      end to end: what the protobuf replication path             *)
+(*              (receive.Writer) appended to the tenants' storages for the *)
+(*              same request; the got entry "e2e-capnp-server" holds what  *)
+(*              the real Cap'n Proto server + handler + writer appended    *)
+(*              (only for requests whose exemplar label sets are valid,    *)
+(*              where both writers are meant to treat decoded series alike)*)
 (* Judged with the property-level operator RoundTripClauses of CapnpWire.  *)
 (***************************************************************************)
 EXTENDS TraceLib, CapnpWire
@@ -20,12 +27,17 @@ EXTENDS TraceLib, CapnpWire
 (* "Encoding a multi-tenant write request ... and decoding it on the peer yields, per tenant, *)
 (* the same series with the same labels, float samples, native histograms and exemplars."     *)
 (* A failed or panicking decode yields nothing: clause decode-error.                          *)
-PathClauses(e, p) == IF p.err # "" THEN {"decode-error"} ELSE RoundTripClauses(e.want, p.tenants)
+DecodedClauses(e, p) == IF p.err # "" THEN {"decode-error"} ELSE RoundTripClauses(e.want, p.tenants)
+(* The same sentence read end to end: the peer's storage receives what it receives over the    *)
+(* protobuf replication path.  Clause names carry the prefix "e2e-".                            *)
+EndToEndClauses(e, p) == { "e2e-" \o c : c \in (IF p.err # "" THEN {"decode-error"} ELSE RoundTripClauses(e.want2, p.tenants)) }
+PathClauses(e, p) == IF p.ref = "proto-writer" THEN EndToEndClauses(e, p) ELSE DecodedClauses(e, p)
 Judge(e) == UNION { PathClauses(e, e.got[k]) : k \in DOMAIN e.got }
+JudgeDecoded(e) == UNION { DecodedClauses(e, e.got[k]) : k \in { j \in DOMAIN e.got : e.got[j].ref = "decoded" } }
 
 (* Model conformance (never a verdict): the algorithm-level model predicts the clauses. *)
 Predicted(e) == RoundTripClauses(Expected(e["in"].req), Decode(Encode(e["in"].req)))
-Drift(e) == e["in"].model /\ Predicted(e) # Judge(e)
+Drift(e) == e["in"].model /\ Predicted(e) # JudgeDecoded(e)
 
 VARIABLE l
 TraceInit == l = 1
